@@ -30,6 +30,7 @@ def locksOf : Path → List Path
   | .partStats _ c => [.processed c]
   | .readStat c => [.processed c]
   | .trStat c => [.processed c]
+  | .refFaiData => [.refFai]
   | _ => []
 
 theorem mem_guarded_locksOf {cfg : Cfg} {l d : Path} (h : d ∈ guarded cfg l) : l ∈ locksOf d := by
@@ -45,6 +46,9 @@ theorem mem_guarded_locksOf {cfg : Cfg} {l d : Path} (h : d ∈ guarded cfg l) :
     rcases h with rfl | ⟨c, _, rfl | rfl⟩ <;> simp [locksOf]
   · split at h
     · rcases mem_chrOutputs h with ⟨s, rfl⟩ | ⟨s, rfl⟩ | ⟨s, rfl⟩ | rfl | rfl <;> simp [locksOf]
+    · simp at h
+  · split at h
+    · simp only [List.mem_cons, List.not_mem_nil, or_false] at h; subst h; simp [locksOf]
     · simp at h
 
 /-- syntactic check of a lock-free list of events: no lock, not `.params`, and only locks from `L` may vouch for the paths -/
